@@ -31,9 +31,10 @@ type opDef struct {
 }
 
 type atom struct {
-	id   string
-	ops  []opDef
-	defs map[string]J
+	id     string
+	ops    []opDef
+	defs   map[string]J
+	noBase bool // document without basePath (root path routing)
 }
 
 func simpleDef() J { return J{"type": "object", "properties": J{"v": J{"type": "string"}}} }
@@ -61,6 +62,9 @@ func atoms() []atom {
 		{id: "opids.case", ops: []opDef{get("/p1", "listID"), get("/p2", "listId"), get("/p3", "ListID")}},
 		{id: "opids.initialism", ops: []opDef{get("/p1", "getHttpUrl"), get("/p2", "getHTTPURL")}},
 		{id: "opids.vs-default-name", ops: []opDef{get("/things", ""), get("/other", "GetThings")}},
+		{id: "opids.vs-default-name.other-order", ops: []opDef{get("/users/{id}", ""), {method: "POST", path: "/lookup", opID: "GetUsersID"}, get("/zz", "")}},
+		{id: "paths.root.no-basepath", noBase: true, ops: []opDef{get("/", ""), {method: "POST", path: "/", opID: "postRoot"}, get("/x", "getX")}},
+		{id: "paths.root.with-basepath", ops: []opDef{get("/", "getRoot"), {method: "PUT", path: "/"}, get("/x", "getX")}},
 		{id: "opids.same-in-different-tags", ops: []opDef{get("/p1", "doIt", "one"), get("/p2", "do-it", "two")}},
 		{id: "defs.punctuation", ops: []opDef{get("/p1", "one")}, defs: d("foo-bar", "foo_bar", "FooBar")},
 		{id: "defs.case", ops: []opDef{get("/p1", "one")}, defs: d("abc", "ABC", "Abc")},
@@ -149,6 +153,9 @@ func buildSpec(a atom, markerBase int) (J, []opDef) {
 	d := J{"swagger": "2.0", "info": J{"title": "vf collisions " + a.id, "version": "1.0.0"}, "basePath": "/c", "consumes": []any{"application/json"}, "produces": []any{"application/json"}, "paths": paths}
 	if len(defs) > 0 {
 		d["definitions"] = defs
+	}
+	if a.noBase {
+		delete(d, "basePath")
 	}
 	return d, ops
 }
@@ -338,7 +345,11 @@ func judge(c *core.Ctx, swagger string, a atom, spec J, ops []opDef, key string,
 		p := regexp.MustCompile(`\{(\w+)\}`).ReplaceAllString(op.path, "val")
 		q := url.Values{}
 		q.Set(fmt.Sprintf("mk%d", 1+i), fmt.Sprint(1000+i))
-		r := servrig.Req{ID: fmt.Sprint(i), Method: op.method, URL: "/c" + p + "?" + q.Encode(), Header: map[string][]string{}}
+		prefix := "/c"
+		if a.noBase {
+			prefix = ""
+		}
+		r := servrig.Req{ID: fmt.Sprint(i), Method: op.method, URL: prefix + p + "?" + q.Encode(), Header: map[string][]string{}}
 		if op.body != nil {
 			r.Header["Content-Type"] = []string{"application/json"}
 			r.BodyB64 = "e30=" // {}
